@@ -343,7 +343,7 @@ Definition shape_ok (b : board) (m : cmove) : Prop :=
         /\ pawn_step_ok c f t = true
     | EnPassant f t =>
         p = Pawn /\ rankZ t = (rankZ f + forward c)%Z /\ bget b t = None
-        /\ bget b (ep_captured_square c t) <> None
+        /\ bget b (ep_captured_square c t) <> None /\ fileZ t <> fileZ f
     | Castle f t =>
         p = King /\ (f = 4 \/ f = 60) /\
         exists rf rt, castle_shape f t = Ok (c, rf, rt) /\ bget b t = None
@@ -369,7 +369,7 @@ Definition shape_okb (b : board) (m : cmove) : bool :=
           && pawn_step_ok c f t
       | EnPassant f t =>
           piece_eqb p Pawn && (rankZ t =? rankZ f + forward c)%Z && is_none (bget b t)
-          && negb (is_none (bget b (ep_captured_square c t)))
+          && negb (is_none (bget b (ep_captured_square c t))) && negb (fileZ t =? fileZ f)%Z
       | Castle f t =>
           piece_eqb p King && ((f =? 4) || (f =? 60))
           && match castle_shape f t with
@@ -412,9 +412,10 @@ Proof.
     + rewrite !andb_true_iff in H. destruct H as [[[X0 X1] X2] X3].
       apply BoardLemmas.piece_eqb_eq in X0.
       apply opt_pc_eqb_eq in X1. apply negb_opt_piece_eqb in X2. conj_done.
-    + rewrite !andb_true_iff in H. destruct H as [[[X0 X1] X2] X3].
+    + rewrite !andb_true_iff in H. destruct H as [[[[X0 X1] X2] X3] X4].
       apply BoardLemmas.piece_eqb_eq in X0. apply Z.eqb_eq in X1.
-      apply is_none_true in X2. apply negb_is_none in X3. conj_done.
+      apply is_none_true in X2. apply negb_is_none in X3.
+      apply negb_true_iff, Z.eqb_neq in X4. conj_done.
     + rewrite !andb_true_iff in H. destruct H as [[X0 X1] X2].
       apply BoardLemmas.piece_eqb_eq in X0. rewrite orb_true_iff, !N.eqb_eq in X1.
       split; [exact X0|]. split; [exact X1|].
@@ -430,9 +431,10 @@ Proof.
     + destruct H as (X0 & X1 & X2 & X3). rewrite !andb_true_iff.
       apply BoardLemmas.piece_eqb_eq in X0.
       apply opt_pc_eqb_eq in X1. apply negb_opt_piece_eqb in X2. conj_done.
-    + destruct H as (X0 & X1 & X2 & X3). rewrite !andb_true_iff.
+    + destruct H as (X0 & X1 & X2 & X3 & X4). rewrite !andb_true_iff.
       apply BoardLemmas.piece_eqb_eq in X0. apply Z.eqb_eq in X1.
-      apply is_none_true in X2. apply negb_is_none in X3. conj_done.
+      apply is_none_true in X2. apply negb_is_none in X3.
+      apply Z.eqb_neq in X4. apply negb_true_iff in X4. conj_done.
     + destruct H as (X0 & X1 & rf & rt & Es & Y1 & Y2 & Y3). rewrite !andb_true_iff.
       apply BoardLemmas.piece_eqb_eq in X0. rewrite <- !N.eqb_eq, <- orb_true_iff in X1.
       split; [split; assumption|]. rewrite Es. rewrite !andb_true_iff.
@@ -616,3 +618,394 @@ Proof.
 Qed.
 
 End WithTable.
+
+(* ------------------------------------------------------------------ *)
+(** * the clauses of the statement, one by one *)
+
+Section Clauses.
+Variable T : ztable.
+
+Lemma shape_lt b m : move_ok b m -> mv_from m < 64 /\ mv_to m < 64.
+Proof. intros [_ (Lf & Lt & _)]. split; assumption. Qed.
+
+(* every square, read through the rules' successor *)
+Theorem apply_succ_cells m b b' :
+  WF b -> move_ok b m -> apply_move T m b = Ok b' ->
+  forall j, j < 64 -> bget b' j = succ_cell (abstract b) m j.
+Proof.
+  intros W Hok Happ. pose proof (apply_is_successor T m b b' W Hok Happ) as Hmain.
+  intros j Lj. destruct (shape_lt b _ Hok) as [Lf Lt].
+  rewrite <- (at_abstract b' j Lj), Hmain.
+  destruct (successor_cells (abstract b) m (length_map_squares _) Lf Lt) as [_ X]. apply X, Lj.
+Qed.
+
+Theorem apply_succ_rights m b b' :
+  WF b -> move_ok b m -> apply_move T m b = Ok b' ->
+  top (cr_stack b') = N.ldiff (top (cr_stack b))
+    (N.lor (rights_lost_by_square (mv_from m)) (rights_lost_by_square (mv_to m))).
+Proof. intros W Hok Happ. pose proof (apply_is_successor T m b b' W Hok Happ) as Hmain. change (top (cr_stack b')) with (prights (abstract b')). rewrite Hmain. reflexivity. Qed.
+
+Theorem apply_succ_ep m b b' :
+  WF b -> move_ok b m -> apply_move T m b = Ok b' ->
+  abs_ep b' = rules_ep (match bget b (mv_from m) with Some (Pawn, _) => true | _ => false end)
+                       (mv_from m) (mv_to m).
+Proof.
+  intros W Hok Happ. pose proof (apply_is_successor T m b b' W Hok Happ) as Hmain.
+  destruct (shape_lt b _ Hok) as [Lf _].
+  change (abs_ep b') with (pep (abstract b')). rewrite Hmain, succ_pep.
+  unfold mover_is_pawn. rewrite (at_abstract b _ Lf). reflexivity.
+Qed.
+
+(* "the captured piece (and only it) disappears": an ordinary move vacates the origin, puts
+   the mover on the destination (replacing what stood there) and leaves every other square *)
+Corollary only_captured_piece_disappears m b b' f t cap :
+  WF b -> move_ok b m -> apply_move T m b = Ok b' ->
+  m = Std f t cap ->
+  forall j, j < 64 ->
+    bget b' j = if j =? t then bget b f else if j =? f then None else bget b j.
+Proof.
+  intros W Hok Happ. pose proof (apply_is_successor T m b b' W Hok Happ) as Hmain.
+  intros -> j Lj. destruct (shape_lt b _ Hok) as [Lf Lt]. cbn [mv_from mv_to] in Lf, Lt.
+  rewrite (apply_succ_cells _ b b' W Hok Happ j Lj). unfold succ_cell. cbn [mv_from mv_to]. cbv zeta.
+  rewrite (at_abstract b f Lf), (at_abstract b j Lj). reflexivity.
+Qed.
+
+(* "en passant removes the pawn beside the destination" *)
+Corollary ep_removes_pawn_beside_destination m b b' f t :
+  WF b -> move_ok b m -> apply_move T m b = Ok b' ->
+  m = EnPassant f t ->
+  bget b' (sq (fileZ t) (rankZ f)) = None /\ bget b' t = bget b f /\ bget b' f = None /\
+  forall j, j < 64 -> j <> sq (fileZ t) (rankZ f) -> j <> t -> j <> f -> bget b' j = bget b j.
+Proof.
+  intros W Hok Happ. pose proof (apply_is_successor T m b b' W Hok Happ) as Hmain.
+  intros ->. destruct (shape_lt b _ Hok) as [Lf Lt]. cbn [mv_from mv_to] in Lf, Lt.
+  pose proof (sq_file_rank_lt t f Lt Lf) as Lv.
+  pose proof (shape_ok_from_neq_to b _ (proj2 Hok)) as Nft. cbn [mv_from mv_to] in Nft.
+  assert (Nvt : t <> sq (fileZ t) (rankZ f)).
+  { destruct (proj2 Hok) as (_ & _ & p & c & _ & _ & Er & _). intro E.
+    assert (X : rankZ (sq (fileZ t) (rankZ f)) = rankZ f).
+    { apply sq_on_board. apply on_board_bounds.
+      pose proof (file_rank_bounds f Lf) as B1. pose proof (file_rank_bounds t Lt) as B2.
+      apply on_board_bounds in B1, B2. lia. }
+    rewrite <- E in X. destruct c; cbn [forward] in Er; lia. }
+  assert (C : forall j, j < 64 -> bget b' j =
+     if j =? sq (fileZ t) (rankZ f) then None
+     else if j =? t then bget b f else if j =? f then None else bget b j).
+  { intros j Lj. rewrite (apply_succ_cells _ b b' W Hok Happ j Lj). unfold succ_cell. cbn [mv_from mv_to]. cbv zeta.
+    rewrite (at_abstract b f Lf), (at_abstract b j Lj). reflexivity. }
+  split; [rewrite (C _ Lv), N.eqb_refl; reflexivity|]. split; [|split].
+  - rewrite (C t Lt). apply N.eqb_neq in Nvt. rewrite Nvt, N.eqb_refl. reflexivity.
+  - rewrite (C f Lf). destruct (f =? sq (fileZ t) (rankZ f)); [reflexivity|].
+    apply N.eqb_neq in Nft. rewrite Nft, N.eqb_refl. reflexivity.
+  - intros j Lj N1 N2 N3. rewrite (C j Lj). apply N.eqb_neq in N1, N2, N3. rewrite N1, N2, N3. reflexivity.
+Qed.
+
+(* "castling also moves the matching rook" *)
+Corollary castle_moves_matching_rook m b b' f t :
+  WF b -> move_ok b m -> apply_move T m b = Ok b' ->
+  m = Castle f t ->
+  exists c, bget b f = Some (King, c) /\
+    bget b' t = Some (King, c) /\ bget b' f = None /\
+    let r := rankZ f in
+    if (fileZ t =? 6)%Z
+    then bget b' (sq 7 r) = None /\ bget b' (sq 5 r) = Some (Rook, c)
+    else bget b' (sq 0 r) = None /\ bget b' (sq 3 r) = Some (Rook, c).
+Proof.
+  intros W Hok Happ. pose proof (apply_is_successor T m b b' W Hok Happ) as Hmain.
+  intros ->. destruct (shape_lt b _ Hok) as [Lf Lt]. cbn [mv_from mv_to] in Lf, Lt.
+  destruct (proj2 Hok) as (_ & _ & p & c & G & -> & Hf & rf & rt & Es & _). cbn [mv_from] in G.
+  exists c. split; [exact G|].
+  assert (C : forall j, j < 64 -> bget b' j = succ_cell (abstract b) (Castle f t) j)
+    by exact (apply_succ_cells _ b b' W Hok Happ).
+  unfold succ_cell, mover_color in C. cbn [mv_from mv_to] in C. cbv zeta in C.
+  rewrite (at_abstract b f Lf), G in C.
+  rewrite (castle_shape_exact f t Lf Lt) in Es. unfold castle_shape_spec in Es.
+  assert (Ht : (f = 4 /\ (t = 6 \/ t = 2)) \/ (f = 60 /\ (t = 62 \/ t = 58))).
+  { destruct Hf as [-> | ->]; [left|right]; (split; [reflexivity|]).
+    - destruct (N.eqb_spec t (4 + 2)) as [X|X]; [left; lia|].
+      destruct (N.eqb_spec 4 (t + 2)) as [Y|Y]; [right; lia|discriminate Es].
+    - destruct (N.eqb_spec t (60 + 2)) as [X|X]; [left; lia|].
+      destruct (N.eqb_spec 60 (t + 2)) as [Y|Y]; [right; lia|discriminate Es]. }
+  cbv zeta.
+  destruct Ht as [[-> [-> | ->]]|[-> [-> | ->]]];
+    repeat split; rewrite C by (vm_compute; reflexivity); reflexivity.
+Qed.
+
+(* "promotion replaces the pawn by the chosen piece" *)
+Corollary promotion_replaces_pawn m b b' f t cap pp :
+  WF b -> move_ok b m -> apply_move T m b = Ok b' ->
+  m = Promo f t cap pp ->
+  exists c, bget b f = Some (Pawn, c) /\ bget b' t = Some (pp, c) /\ bget b' f = None /\
+    forall j, j < 64 -> j <> t -> j <> f -> bget b' j = bget b j.
+Proof.
+  intros W Hok Happ. pose proof (apply_is_successor T m b b' W Hok Happ) as Hmain.
+  intros ->. destruct (shape_lt b _ Hok) as [Lf Lt]. cbn [mv_from mv_to] in Lf, Lt.
+  pose proof (shape_ok_from_neq_to b _ (proj2 Hok)) as Nft. cbn [mv_from mv_to] in Nft.
+  destruct (proj2 Hok) as (_ & _ & p & c & G & Ep & _). subst p. cbn [mv_from] in G.
+  exists c. split; [exact G|].
+  assert (C : forall j, j < 64 -> bget b' j =
+     if j =? t then Some (pp, c) else if j =? f then None else bget b j).
+  { intros j Lj. rewrite (apply_succ_cells _ b b' W Hok Happ j Lj). unfold succ_cell, mover_color. cbn [mv_from mv_to]. cbv zeta.
+    rewrite (at_abstract b f Lf), (at_abstract b j Lj), G. reflexivity. }
+  split; [rewrite (C t Lt), N.eqb_refl; reflexivity|]. split.
+  - rewrite (C f Lf). apply N.eqb_neq in Nft. rewrite Nft, N.eqb_refl. reflexivity.
+  - intros j Lj N1 N2. rewrite (C j Lj). apply N.eqb_neq in N1, N2. rewrite N1, N2. reflexivity.
+Qed.
+
+(* "a double pawn step sets the en-passant target to the skipped square" *)
+Corollary double_step_sets_ep_target m b b' c :
+  WF b -> move_ok b m -> apply_move T m b = Ok b' ->
+  bget b (mv_from m) = Some (Pawn, c) ->
+  Z.abs (rankZ (mv_to m) - rankZ (mv_from m)) = 2%Z ->
+  abs_ep b' = Some (sq (fileZ (mv_from m)) ((rankZ (mv_from m) + rankZ (mv_to m)) / 2)).
+Proof.
+  intros W Hok Happ. pose proof (apply_is_successor T m b b' W Hok Happ) as Hmain.
+  intros G D. rewrite (apply_succ_ep _ b b' W Hok Happ), G. unfold rules_ep. rewrite D. reflexivity.
+Qed.
+
+(* "... and every other move clears it" *)
+Corollary other_moves_clear_ep_target m b b' :
+  WF b -> move_ok b m -> apply_move T m b = Ok b' ->
+  (forall c, bget b (mv_from m) <> Some (Pawn, c)) \/
+  Z.abs (rankZ (mv_to m) - rankZ (mv_from m)) <> 2%Z ->
+  abs_ep b' = None.
+Proof.
+  intros W Hok Happ. pose proof (apply_is_successor T m b b' W Hok Happ) as Hmain.
+  intro D. rewrite (apply_succ_ep _ b b' W Hok Happ). unfold rules_ep. destruct D as [D|D].
+  - destruct (bget b (mv_from m)) as [[[] c]|]; try reflexivity. exfalso. apply (D c). reflexivity.
+  - apply Z.eqb_neq in D. rewrite D, andb_false_r. reflexivity.
+Qed.
+
+(* "castling rights are lost exactly when the king or a home rook moves or a home rook is
+   captured": bit by bit, a right is held afterwards iff it was held and neither the origin
+   nor the destination is a home square of that right *)
+Corollary rights_lost_exactly m b b' :
+  WF b -> move_ok b m -> apply_move T m b = Ok b' ->
+  forall k,
+  N.testbit (top (cr_stack b')) k =
+  N.testbit (top (cr_stack b)) k
+  && negb (N.testbit (rights_lost_by_square (mv_from m)) k || N.testbit (rights_lost_by_square (mv_to m)) k).
+Proof. intros W Hok Happ k. rewrite (apply_succ_rights _ b b' W Hok Happ), N.ldiff_spec, N.lor_spec. reflexivity. Qed.
+
+(* "making a move never changes whose turn it is" *)
+Corollary turn_unchanged m b b' :
+  WF b -> move_ok b m -> apply_move T m b = Ok b' ->
+  turn b' = turn b.
+Proof. intros W Hok Happ. pose proof (apply_is_successor T m b b' W Hok Happ) as Hmain. change (pturn (abstract b') = pturn (abstract b)). rewrite Hmain. reflexivity. Qed.
+
+End Clauses.
+
+(* ------------------------------------------------------------------ *)
+(** * "... and never fails for a legal move" *)
+
+Lemma rank_of_sq_file_rank t f : t < 64 -> f < 64 ->
+  rankZ (sq (fileZ t) (rankZ f)) = rankZ f /\ fileZ (sq (fileZ t) (rankZ f)) = fileZ t.
+Proof.
+  intros Lt Lf.
+  assert (B : on_board (fileZ t) (rankZ f) = true).
+  { apply on_board_bounds.
+    pose proof (file_rank_bounds f Lf) as B1. pose proof (file_rank_bounds t Lt) as B2.
+    apply on_board_bounds in B1, B2. lia. }
+  destruct (sq_on_board _ _ B) as (_ & X & Y). split; assumption.
+Qed.
+
+Section Total.
+Variable T : ztable.
+
+Theorem apply_total_shape m b :
+  WF b -> shape_ok b m -> counters_ok b -> exists b', apply_move T m b = Ok b'.
+Proof.
+  intros W S Ck. pose proof (shape_ok_from_neq_to b m S) as Nft.
+  destruct S as (Lf & Lt & p & c & G & S).
+  destruct m as [f t cap|f t cap pp|f t|f t]; cbn [mv_from mv_to apply_move] in *.
+  - destruct S as (Gt & _).
+    apply (apply_std_total T b f t cap p c W Lt Ck G). rewrite (found_on_neq b f t Nft). exact Gt.
+  - destruct S as (-> & Gt & _).
+    apply (apply_promo_total T b f t cap pp c W Lt Ck G). rewrite (found_on_neq b f t Nft). exact Gt.
+  - destruct S as (-> & Er & Gt & Gv & Nfile).
+    destruct (rank_of_sq_file_rank t f Lt Lf) as [Xr Xf].
+    pose proof (ep_captured_square_rules c f t Lf Lt Er) as Ev.
+    apply (apply_ep_total T b f t c W Lt Ck G); try assumption; rewrite Ev; intro E.
+    + rewrite E in Xf. congruence.
+    + rewrite E in Xr. destruct c; cbn [forward] in Er; lia.
+  - destruct S as (-> & Hf & rf & rt & Es & Gt & Gr & Grt).
+    pose proof Es as Es'. rewrite (castle_shape_exact f t Lf Lt) in Es'. unfold castle_shape_spec in Es'.
+    assert (Hc : (f = 4 /\ ((t = 6 /\ rf = 7 /\ rt = 5) \/ (t = 2 /\ rf = 0 /\ rt = 3)))
+              \/ (f = 60 /\ ((t = 62 /\ rf = 63 /\ rt = 61) \/ (t = 58 /\ rf = 56 /\ rt = 59)))).
+    { destruct Hf as [-> | ->]; [left|right]; (split; [reflexivity|]).
+      - destruct (N.eqb_spec t (4 + 2)) as [X|X].
+        + cbn in Es'. inversion Es'. left. lia.
+        + destruct (N.eqb_spec 4 (t + 2)) as [Y|Y]; [|discriminate Es'].
+          cbn in Es'. inversion Es'. right. lia.
+      - destruct (N.eqb_spec t (60 + 2)) as [X|X].
+        + cbn in Es'. inversion Es'. left. lia.
+        + destruct (N.eqb_spec 60 (t + 2)) as [Y|Y]; [|discriminate Es'].
+          cbn in Es'. inversion Es'. right. lia. }
+    apply (apply_castle_total T b f t c rf rt W Lt); try assumption;
+      destruct Hc as [[-> [(-> & -> & ->)|(-> & -> & ->)]]|[-> [(-> & -> & ->)|(-> & -> & ->)]]]; lia.
+Qed.
+
+Theorem apply_total m b :
+  WF b -> move_ok b m -> counters_ok b -> exists b', apply_move T m b = Ok b'.
+Proof. intros W [_ S]. apply apply_total_shape; assumption. Qed.
+
+(* the same with the counters bounded by their types' maxima *)
+Corollary apply_total_lt m b :
+  WF b -> move_ok b m ->
+  ep_stack b <> [] -> cr_stack b <> [] -> hm_stack b <> [] ->
+  fullmove b < FULLMOVE_MAX -> top (hm_stack b) < U8_MAX ->
+  exists b', apply_move T m b = Ok b'.
+Proof.
+  intros W Hok X1 X2 X3 X4 X5. apply apply_total; try assumption.
+  unfold counters_ok. repeat split; try assumption; lia.
+Qed.
+
+(* both halves: the move is made, and what results is the rules' successor *)
+Corollary apply_legal_move m b :
+  WF b -> move_ok b m -> counters_ok b ->
+  exists b', apply_move T m b = Ok b' /\ abstract b' = successor (abstract b) m /\ turn b' = turn b.
+Proof.
+  intros W Hok Ck. destruct (apply_total m b W Hok Ck) as [b' E]. exists b'.
+  split; [exact E|]. split; [apply (apply_is_successor T m b b' W Hok E)|apply (turn_unchanged T m b b' W Hok E)].
+Qed.
+
+End Total.
+
+Definition counters_okb (b : board) : bool :=
+  nonempty (ep_stack b) && nonempty (cr_stack b) && nonempty (hm_stack b)
+  && negb (fullmove b =? FULLMOVE_MAX) && negb (top (hm_stack b) =? U8_MAX).
+
+Lemma counters_okb_spec b : counters_okb b = true <-> counters_ok b.
+Proof.
+  unfold counters_okb, counters_ok. rewrite !andb_true_iff, !nonempty_spec, !negb_true_iff, !N.eqb_neq. tauto.
+Qed.
+
+(* a board on which repr_ok holds satisfies the board-side premises *)
+Lemma repr_ok_premises b : repr_ok b = true -> WF b /\ rights_home b.
+Proof. intro H. split; [apply (repr_ok_WF b H)|apply (repr_ok_rights_home b H)]. Qed.
+
+
+(* the callers flip the side to move afterwards: together that is the rules' succ_turn *)
+Lemma abstract_toggle_turn b : abstract (toggle_turn b) = flip_turn (abstract b).
+Proof. reflexivity. Qed.
+
+Corollary apply_then_flip_is_succ_turn (T : ztable) m b b' :
+  WF b -> move_ok b m -> apply_move T m b = Ok b' ->
+  abstract (toggle_turn b') = succ_turn (abstract b) m.
+Proof.
+  intros W Hok H. rewrite abstract_toggle_turn, (apply_is_successor T m b b' W Hok H). reflexivity.
+Qed.
+
+(* ------------------------------------------------------------------ *)
+(** * non-vacuity: the premises hold, and the conclusion is seen, on concrete boards *)
+
+Ltac vm_split :=
+  repeat (lazymatch goal with |- _ /\ _ => split end); vm_compute; reflexivity.
+
+Definition ok_board (r : res board) : board := match r with Ok b => b | _ => board_new end.
+Definition made (m : cmove) (b : board) : board := ok_board (apply_move Z0 m b).
+
+(* for each example: the three premises of apply_is_successor / apply_total, decided *)
+Definition premises (b : board) (m : cmove) : bool := wf_b b && move_okb b m && counters_okb b.
+
+Lemma premises_spec b m : premises b m = true -> WF b /\ move_ok b m /\ counters_ok b.
+Proof.
+  unfold premises. rewrite !andb_true_iff. intros [[X1 X2] X3].
+  split; [apply (wf_b_WF b X1)|]. split; [apply move_okb_spec, X2|apply counters_okb_spec, X3].
+Qed.
+
+(* 1. double step e2-e4 from the starting position: target e3, rights untouched *)
+Example ex_double_step :
+  let b := initial_board in let m := Std 12 28 None in
+  premises b m = true /\ apply_move Z0 m b = Ok (made m b) /\
+  abstract (made m b) = successor (abstract b) m /\
+  abs_ep (made m b) = Some 20 /\ top (cr_stack (made m b)) = 15 /\ turn (made m b) = White.
+Proof. cbv zeta. vm_split. Qed.
+
+(* ... and a single step clears a standing target *)
+Example ex_single_step_clears :
+  let b := made (Std 12 28 None) initial_board in let m := Std 52 44 None in   (* 1.e4 e6 *)
+  premises b m = true /\ abs_ep b = Some 20 /\ abs_ep (made m b) = None /\
+  abstract (made m b) = successor (abstract b) m.
+Proof. cbv zeta. vm_split. Qed.
+
+(* 2. a promoting pawn takes a home rook on a corner: b7xa8=Q, Black still held O-O-O *)
+Definition corner_board : board :=
+  set_cr (ok_board (put_all board_new [(4, King, White); (60, King, Black); (49, Pawn, White); (56, Rook, Black)]))
+         [BQ].
+Example ex_corner_capture_promotion :
+  let b := corner_board in let m := Promo 49 56 (Some Rook) Queen in
+  premises b m = true /\ apply_move Z0 m b = Ok (made m b) /\
+  abstract (made m b) = successor (abstract b) m /\
+  top (cr_stack b) = BQ /\ top (cr_stack (made m b)) = 0 /\
+  bget (made m b) 56 = Some (Queen, White) /\ bget (made m b) 49 = None.
+Proof. cbv zeta. vm_split. Qed.
+
+(* 3. castling after the other rook has moved: only O-O is still held; the h-rook goes to f1 *)
+Definition one_rook_board : board :=
+  set_cr (ok_board (put_all board_new [(4, King, White); (7, Rook, White); (1, Rook, White); (60, King, Black)]))
+         [WK].
+Example ex_castle_after_other_rook_moved :
+  let b := one_rook_board in let m := Castle 4 6 in
+  premises b m = true /\ apply_move Z0 m b = Ok (made m b) /\
+  abstract (made m b) = successor (abstract b) m /\
+  top (cr_stack (made m b)) = 0 /\
+  bget (made m b) 6 = Some (King, White) /\ bget (made m b) 5 = Some (Rook, White) /\
+  bget (made m b) 7 = None /\ bget (made m b) 4 = None /\ bget (made m b) 1 = Some (Rook, White).
+Proof. cbv zeta. vm_split. Qed.
+
+(* a rook leaving its home square loses just its own side's right *)
+Definition two_rook_board : board :=
+  ok_board (put_all (set_cr board_new [N.lor WK WQ])
+                    [(4, King, White); (7, Rook, White); (0, Rook, White); (60, King, Black)]).
+Example ex_rook_move_loses_one_right :
+  let b := two_rook_board in let m := Std 0 1 None in
+  premises b m = true /\ abstract (made m b) = successor (abstract b) m /\
+  top (cr_stack b) = N.lor WK WQ /\ top (cr_stack (made m b)) = WK.
+Proof. cbv zeta. vm_split. Qed.
+
+(* 4. en passant: white pawn e5, black pawn d5 has just played d7-d5; exd6 removes d5 *)
+Definition ep_board0 : board :=
+  set_cr (set_ep (ok_board (put_all board_new
+            [(4, King, White); (60, King, Black); (36, Pawn, White); (35, Pawn, Black)])) [bit 43; 0]) [0].
+Example ex_en_passant :
+  let b := ep_board0 in let m := EnPassant 36 43 in
+  premises b m = true /\ apply_move Z0 m b = Ok (made m b) /\
+  abstract (made m b) = successor (abstract b) m /\
+  abs_ep b = Some 43 /\ abs_ep (made m b) = None /\
+  bget (made m b) 43 = Some (Pawn, White) /\ bget (made m b) 35 = None /\ bget (made m b) 36 = None.
+Proof. cbv zeta. vm_split. Qed.
+
+(* the theorems instantiate on these boards *)
+Example ex_theorem_applies :
+  abstract (made (Castle 4 6) one_rook_board) = successor (abstract one_rook_board) (Castle 4 6).
+Proof.
+  destruct (premises_spec one_rook_board (Castle 4 6) ltac:(vm_compute; reflexivity)) as (W & Hok & _).
+  apply (apply_is_successor Z0 _ _ _ W Hok). vm_compute. reflexivity.
+Qed.
+
+(* what move_ok excludes, and why: a pawn "double step" that does not start on its start
+   rank (e3-e5) is recorded as a double step by the rules' formula but not by the engine *)
+Example ex_why_pawn_step_ok :
+  let b := ok_board (put_all (set_cr board_new [0]) [(4, King, White); (60, King, Black); (20, Pawn, White)]) in
+  let m := Std 20 36 None in
+  move_okb b m = false /\ abs_ep (made m b) = None /\ pep (successor (abstract b) m) = Some 28.
+Proof. cbv zeta. vm_split. Qed.
+
+(* ... and capturing a king on its home square (never legal) would lose rights only in the rules *)
+Example ex_why_no_king_capture :
+  let b := ok_board (put_all (set_cr board_new [BK])
+              [(4, King, White); (60, King, Black); (63, Rook, Black); (52, Queen, White)]) in
+  let m := Std 52 60 (Some King) in
+  move_okb b m = false /\ top (cr_stack (made m b)) = BK /\ prights (successor (abstract b) m) = 0.
+Proof. cbv zeta. vm_split. Qed.
+
+
+Print Assumptions apply_is_successor.
+Print Assumptions apply_total.
+Print Assumptions apply_legal_move.
+Print Assumptions move_okb_spec.
+Print Assumptions rights_lost_exactly.
+Print Assumptions castle_moves_matching_rook.
+Print Assumptions apply_then_flip_is_succ_turn.
+Print Assumptions ex_theorem_applies.
